@@ -17,7 +17,7 @@ def batch_verdicts(ctx, module, recs, chunk=4000, name=None, extra_env=None, tim
         path = "%s/%s_%d_%d.json" % (ctx.tmp, module, len(ctx.cov["tlc_runs"]), base)
         core.write_json(path, part)
         # recursive operators over sequences of ~64 elements need more than the default thread stack
-        env = {"TRACE_FILE": path, "JAVA_TOOL_OPTIONS": "-Xss64m"}
+        env = {"TRACE_FILE": path, "JAVA_TOOL_OPTIONS": "-Xss64m -XX:ParallelGCThreads=2"}
         env.update(extra_env or {})
         parts.append((base, part, env))
 
@@ -48,7 +48,12 @@ def tlc_many(jobs, par=3):
     """jobs: list of (name, kwargs for core.tlc).  Runs them `par` at a time; returns {name: TLCResult}."""
     out = {}
     with ThreadPoolExecutor(max_workers=par) as ex:
-        futs = {name: ex.submit(lambda kw=kw: core.tlc(**kw)) for name, kw in jobs}
+        def go(kw):
+            kw = dict(kw)
+            kw["env"] = dict({"JAVA_TOOL_OPTIONS": "-XX:ParallelGCThreads=%d" % max(2, int(kw.get("workers") or 2))},
+                             **(kw.get("env") or {}))
+            return core.tlc(**kw)
+        futs = {name: ex.submit(go, kw) for name, kw in jobs}
         for name, f in futs.items():
             out[name] = f.result()
     return out
